@@ -128,6 +128,25 @@ int32 sslUpdateHSHash(ssl_t *ssl, const unsigned char *in, psSize_t len)
     }
     return 0;
 }
+#ifdef VF_CBMC
+/* model of the constant-time compare (core/src/corelib_strings.c): both
+   ranges must lie inside live blocks; natively the real function runs */
+int32 memcmpct(const void *s1, const void *s2, size_t len)
+{
+    size_t i;
+    int32 d = 0;
+    vf_heap_chk(s1, len);
+    vf_heap_chk(s2, len);
+    for (i = 0; i < VF_HEAP_SLOT; i++)
+    {
+        if (i < len)
+        {
+            d |= ((const unsigned char *) s1)[i] ^ ((const unsigned char *) s2)[i];
+        }
+    }
+    return d;
+}
+#endif
 int32 sslSnapshotHSHash(ssl_t *ssl, unsigned char *out, psBool_t a, psBool_t b)
 {
     return vf_bool() ? 36 : -1;
@@ -187,6 +206,8 @@ VF_MAIN
         /* RI: a client that advertised the ticket extension has a session id */
         VF_ASSUME(ssl->hsState != SSL_HS_NEW_SESSION_TICKET);
     }
+    /* RI: HELLO_VERIFY_REQUEST is only ever the expected state while no cookie is held */
+    VF_ASSUME(ssl->hsState != SSL_HS_HELLO_VERIFY_REQUEST || ssl->haveCookie == 0);
     g_pre_lastMsn = ssl->lastMsn;
     VF_ASSUME(ssl->lastMsn >= -1 && ssl->lastMsn < 0x7fff);
 
